@@ -255,13 +255,11 @@ func (fv floatValue) ReflectTo(c px.Context, value reflect.Value) {
 		return
 	case reflect.Ptr:
 		switch value.Type().Elem().Kind() {
-		case reflect.Float64:
-			f := float64(fv)
-			value.Set(reflect.ValueOf(&f))
-			return
-		case reflect.Float32:
-			f32 := float32(fv)
-			value.Set(reflect.ValueOf(&f32))
+		case reflect.Float64, reflect.Float32:
+			// a new float of the destination's element type, which may be a defined type
+			p := reflect.New(value.Type().Elem())
+			p.Elem().SetFloat(float64(fv))
+			value.Set(p)
 			return
 		}
 	}
